@@ -19,7 +19,7 @@ func S2Walk(p *core.Program, a *spec.Anchors, r *core.Report) {
 	r.Rule("S2b: every store to GradContext.gradient either happens under a dominating `old == nil` test or stores old.Add(incoming)/incoming.Add(old)")
 	r.Rule("S2c: in the function that applies backwardEdge.gradFn the store `bpdirty = true` dominates the application; a dominating test of `tracked` is recorded when present (when the filter sits elsewhere, e.g. in a schedule builder, the clause rests on the interpreted templates: no untracked tensor receives a gradient or is marked spent)")
 	r.Rule("S2d: the walk never sub-slices backEdges")
-	r.Rule("S1d: Tensor.Gradient is only read at backward time: inside closures stored as backward rules, or in functions all of whose callers are such (never at graph-construction time)")
+	r.Rule("S1d: Tensor.Gradient is not read at graph-construction time: no function reachable by direct calls from an exported function or method other than BackPropagate reads it (backward rules are function values, entered only when the walk calls them)")
 
 	pub := p.Func(core.PkgTensor, "BackPropagate")
 	if pub == nil {
@@ -249,43 +249,46 @@ func S2Walk(p *core.Program, a *spec.Anchors, r *core.Report) {
 	r.Pass("S2d", "gradtrack walk", "", "", fmt.Sprintf("%d walk functions inspected, no sub-slicing of backEdges", len(walk)))
 
 	/* ---- S1d ---- */
-	// backward-time functions: the closures stored as backward rules, the functions defined inside them, and
-	// every function all of whose callers are backward-time (helpers the rules were factored into)
-	bwd := map[*ssa.Function]bool{}
+	// graph-construction time: everything reachable through DIRECT calls (static callees, incl. closures invoked on
+	// the spot) from the exported functions and methods of the library other than BackPropagate.  Backward rules are
+	// function VALUES stored in edges - closures, method values of a per-call rule object, named functions - and are
+	// only entered when the walk calls them, never through a direct call from a constructor.
 	gradFns := p.ModuleFunctions(core.PkgGrad)
-	for _, fn := range gradFns {
-		if isGradFnClosure(fn) {
-			bwd[fn] = true
+	ct := map[*ssa.Function]bool{}
+	var work []*ssa.Function
+	for _, fn := range p.ModuleFunctions() {
+		if fn.Parent() != nil || fn.Object() == nil || !fn.Object().Exported() || fn.Name() == "BackPropagate" {
+			continue
 		}
+		ct[fn] = true
+		work = append(work, fn)
 	}
-	for changed := true; changed; {
-		changed = false
-		for _, fn := range gradFns {
-			if bwd[fn] {
-				continue
-			}
-			if par := fn.Parent(); par != nil && bwd[par] {
-				bwd[fn], changed = true, true
-				continue
-			}
-			node := g.Nodes[fn]
-			if node == nil || len(node.In) == 0 {
-				continue
-			}
-			all := true
-			for _, e := range node.In {
-				if !bwd[e.Caller.Func] {
-					all = false
-					break
+	for len(work) > 0 {
+		f := work[len(work)-1]
+		work = work[:len(work)-1]
+		for _, b := range f.Blocks {
+			for _, in := range b.Instrs {
+				ci, ok := in.(ssa.CallInstruction)
+				if !ok {
+					continue
 				}
-			}
-			if all {
-				bwd[fn], changed = true, true
+				if _, isGo := in.(*ssa.Go); isGo {
+					continue
+				}
+				callee := ci.Common().StaticCallee()
+				if _, isDefer := in.(*ssa.Defer); isDefer && callee == nil {
+					continue
+				}
+				if callee == nil || callee.Blocks == nil || !core.InModule(callee) || ct[callee] {
+					continue
+				}
+				ct[callee] = true
+				work = append(work, callee)
 			}
 		}
 	}
 	nReads := 0
-	for _, fn := range gradFns {
+	for _, fn := range append(append([]*ssa.Function{}, gradFns...), p.ModuleFunctions(core.PkgCPU)...) {
 		for _, b := range fn.Blocks {
 			for _, in := range b.Instrs {
 				c, ok := in.(*ssa.Call)
@@ -296,15 +299,15 @@ func S2Walk(p *core.Program, a *spec.Anchors, r *core.Report) {
 					continue
 				}
 				nReads++
-				if node := g.Nodes[fn]; !bwd[fn] && !(fn.Parent() == nil && (node == nil || len(node.In) == 0)) {
-					r.Violate("S1d", core.FuncKey(fn), "early-gradient-read", p.Pos(c.Pos()), "Tensor.Gradient is read while the graph is being built; it is nil (or stale) at that time", "any tracked operation: the rule sees a nil upstream gradient")
+				if ct[fn] {
+					r.Violate("S1d", core.FuncKey(fn), "early-gradient-read", p.Pos(c.Pos()), "Tensor.Gradient is read in a function that graph construction calls directly; the gradient is nil (or stale) at that time", "any tracked operation: the rule sees a nil upstream gradient")
 				}
 			}
 		}
 	}
 	r.Count("S1d.gradient_reads", nReads)
 	r.Min("S1d.gradient_reads", 8)
-	r.Pass("S1d", "gradtrack", "", "", fmt.Sprintf("%d reads of Tensor.Gradient, all inside backward-rule closures or helpers called only from them", nReads))
+	r.Pass("S1d", "gradtrack", "", "", fmt.Sprintf("%d reads of Tensor.Gradient, none in a function that graph construction reaches by direct calls", nReads))
 }
 
 func keysOf(m map[string]bool) string {
